@@ -1102,6 +1102,10 @@ class EClass(EClassifier):
 
 def EMetaclass(cls):
     """Class decorator for creating PyEcore metaclass."""
+    if isinstance(cls, MetaEClass):
+        # a subclass of a static class has been built by this metaclass
+        # already: building it again would register a second EClass
+        return cls
     superclass = cls.__bases__
     if not issubclass(cls, EObject):
         sclasslist = list(superclass)
